@@ -218,6 +218,9 @@ func (s *State) setHeap(name, sort, term string) {
 
 // havocAll forgets everything about the heap and mutable globals.
 func (s *State) havocAll() {
+	if dbg := os.Getenv("GOVC_DEBUG_HAVOC"); dbg != "" && strings.Contains(s.vc.fn, dbg) {
+		debug.PrintStack()
+	}
 	// ghost heaps before the havoc (read with the old epoch)
 	oldGhost := map[string]string{}
 	for k, srt := range s.vc.heapSort {
